@@ -77,3 +77,7 @@ var Stalled bool
 
 // SimNow returns seconds since Epoch on the current (bubble) clock.
 func SimNow() float64 { return time.Since(Epoch).Seconds() }
+
+// Recycle is set by a world when this process should not execute further plans although nothing went wrong (finished
+// runs left too many goroutines of the code under test behind): exploration ends early, results are reported as usual.
+var Recycle bool
